@@ -3,6 +3,8 @@ Driver for C19 (workers and promises).  Core-only.
 
 Inputs (harness/props/c19.go)
   pf <threads> <outcap> <incap> <ops> <close> <sched>      Processor, forced schedule
+  pg <threads> <outcap> <incap> <ops;ops;…> <collectors> <close> <sched>
+                                                            the same with several producers / collectors
   pu <threads> <gomaxprocs> <outcap> <incap> <ops> <mode>  Processor, free running
   mp <n> <threads> <maxchunk> <errAt>                       Map, free running
   pp <mrl> <calls> <sched>                                  Promise, forced schedule
@@ -142,115 +144,153 @@ def subMultiset : List Res → List Res → Bool
   | [], _ => true
   | x :: xs, b => if b.contains x then subMultiset xs (b.erase x) else false
 
-/-- actor numbering: workers 0..t-1, then producer, collector, stopper, waiter -/
-def procActor (t : Nat) (k : Nat) : Actor :=
+/-- actor numbering: workers 0..t-1, then the producers, the collectors, stopper, waiter -/
+def procActor (t np nc : Nat) (k : Nat) : Actor :=
   if k < t then .worker k
-  else if k == t then .producer
-  else if k == t + 1 then .collector
-  else if k == t + 2 then .stopper
+  else if k < t + np then .producer (k - t)
+  else if k < t + np + nc then .collector (k - t - np)
+  else if k == t + np + nc then .stopper
   else .waiter
 
-def procMacro (c : Cfg) : Macro St Actor where
-  sys := sys c
-  n := c.threads + 4
-  act := procActor c.threads
-  atHook := fun s k =>
-    if k < c.threads then
-      match s.ws[k]? with
-      | some .idle | some (.send _) | some .tokret | some .done => true
-      | _ => false
-    else if k == c.threads + 1 then s.cpc != .receiving
-    else true
-  finished := fun s k =>
-    if k < c.threads then s.ws[k]? == some .done
-    else if k == c.threads then s.todo.isEmpty && (s.inClosed || !c.wantClose)
-    else if k == c.threads + 1 then s.cpc == .closedSeen
-    else if k == c.threads + 2 then s.stop
-    else s.waitReturned
-  parkedAt := fun s k =>
-    if k < c.threads then
-      match s.ws[k]? with
-      | some .idle => 'i'
-      | some (.send _) => 'r'
-      | some .tokret => 't'
-      | _ => '?'
-    else 'P'
-  dead := fun s => s.crashed.isSome
+def procMacro (c : Cfg) : Macro St Actor :=
+  let t := c.threads
+  let np := c.prods.length
+  let nc := c.ncoll
+  { sys := sys c
+    n := t + np + nc + 2
+    act := procActor t np nc
+    atHook := fun s k =>
+      if k < t then
+        match s.ws[k]? with
+        | some .idle | some (.send _) | some .tokret | some .done => true
+        | _ => false
+      else if t + np ≤ k && k < t + np + nc then s.cpcs[k - t - np]? != some .receiving
+      else true
+    finished := fun s k =>
+      if k < t then s.ws[k]? == some .done
+      else if k < t + np then
+        (s.todo.getD (k - t) []).isEmpty && (k != t || s.inClosed || !c.wantClose)
+      else if k < t + np + nc then s.cpcs[k - t - np]? == some .closedSeen
+      else if k == t + np + nc then s.stop
+      else s.waitReturned
+    parkedAt := fun s k =>
+      if k < t then
+        match s.ws[k]? with
+        | some .idle => 'i'
+        | some (.send _) => 'r'
+        | some .tokret => 't'
+        | _ => '?'
+      else 'P'
+    dead := fun s => s.crashed.isSome }
 
-/-- schedule letters: digits = workers, p c s w -/
-def parseProcSched (t : Nat) (s : String) : Option (List Nat) :=
+/-- schedule letters: digits = workers; p q r = producers 0 1 2; c d e = collectors 0 1 2;
+    s = stopper; w = waiter -/
+def parseProcSched (t np nc : Nat) (s : String) : Option (List Nat) :=
   if s == "-" then some [] else
   s.toList.mapM fun ch =>
     if ch.isDigit then (let k := ch.toNat - 48; if k < t then some k else none)
-    else if ch == 'p' then some t
-    else if ch == 'c' then some (t + 1)
-    else if ch == 's' then some (t + 2)
-    else if ch == 'w' then some (t + 3)
+    else if ch == 'p' || ch == 'q' || ch == 'r' then
+      (let p := ch.toNat - 112; if p < np then some (t + p) else none)
+    else if ch == 'c' || ch == 'd' || ch == 'e' then
+      (let k := ch.toNat - 99; if k < nc then some (t + np + k) else none)
+    else if ch == 's' then some (t + np + nc)
+    else if ch == 'w' then some (t + np + nc + 1)
     else none
 
 def showCrash : Crash → String
   | .doubleClose => "crash:close-of-closed-channel"
   | .sendOnClosed => "crash:send-on-closed-channel"
 
+/-- per-collector results `a,b;c;-` and per-collector closed bits `101` (one collector: the
+    format of the first wave, `res=a,b closed=1`) -/
 def procObs (_c : Cfg) (m : MSt St) : String :=
   match m.st.crashed with
   | some k => showCrash k
   | none =>
-    s!"t={"/".intercalate m.trace} res={showRess m.st.delivered} closed={showBool (m.st.cpc == .closedSeen)} wait={showBool m.st.waitReturned}"
+    let res := ";".intercalate (m.st.delivered.map showRess)
+    let closed := String.join (m.st.cpcs.map fun pc => showBool (pc == .closedSeen))
+    s!"t={"/".intercalate m.trace} res={res} closed={closed} wait={showBool m.st.waitReturned}"
 
-/-- drain order: workers, producer, collector, waiter (never the stopper) -/
-def procDrainOrder (t : Nat) : List Nat := List.range (t + 2) ++ [t + 3]
+/-- drain order: workers, producers, collectors, waiter (never the stopper) -/
+def procDrainOrder (t np nc : Nat) : List Nat := List.range (t + np + nc) ++ [t + np + nc + 1]
 
 /-- key=value fields of an observation -/
 def field (ts : List String) (key : String) : Option String :=
   (ts.find? (·.startsWith (key ++ "="))).map fun t => String.ofList (t.toList.drop (key.length + 1))
 
 /-- The statement of C19 for a Processor run, evaluated on the implementation's observation.
-    `stopUsed`: the schedule released the stopper.  `finalVec`: last status vector. -/
+    `stopUsed`: the schedule released the stopper.  The results of all collectors are taken
+    together: every result is some operation's (no duplicate, nothing invented); with the queue
+    closed every worker, every collector and `Wait` finish, and — no `Stop`, fewer panicking
+    operations than workers — every operation has its result. -/
 def procSpec (c : Cfg) (stopUsed : Bool) (obs : String) : Option String :=
   if obs.startsWith "crash:" then some ("no_panic " ++ obs)
   else if obs == "hang" then some "shutdown_clean hang"
   else
     let ts := tokens obs
-    match (field ts "res").bind parseRess, (field ts "closed").bind parseBool, (field ts "wait").bind parseBool with
-    | some res, some closed, some wait =>
+    let resLists := (field ts "res").bind fun r => (r.splitOn ";").mapM parseRess
+    let closedBits := (field ts "closed").bind fun b => b.toList.mapM fun ch => parseBool (String.singleton ch)
+    match resLists, closedBits, (field ts "wait").bind parseBool with
+    | some ress, some closeds, some wait =>
+      let res := ress.flatten
+      let closed := closeds.all id
       let want := c.ops.map eval
       let fin := match field ts "t" with
         | some t => ((t.splitOn "/").getLast?).getD ""
         | none => ""
       let finL := fin.toList
       let t := c.threads
-      let producerDone := finL.getD t 'D' == 'D'
-      if !subMultiset res want then some "each_op_one_result: a result that no operation produced, or a duplicate"
-      else if c.wantClose && producerDone &&
-              !((finL.take t).all (· == 'D') && finL.getD (t + 1) 'D' == 'D' && finL.getD (t + 3) 'D' == 'D' && closed && wait) then
-        some "shutdown_clean: queue closed but a worker, the collector or Wait did not finish"
-      else if c.wantClose && producerDone && !stopUsed && (c.ops.filter Op.isPan).length < c.threads && !subMultiset want res then
+      let np := c.prods.length
+      let nc := c.ncoll
+      let producersDone := ((finL.drop t).take np).all (· == 'D')
+      if ress.length ≠ nc || closeds.length ≠ nc then some "unparsable-observation"
+      else if !subMultiset res want then some "each_op_one_result: a result that no operation produced, or a duplicate"
+      else if c.wantClose && producersDone && nc > 0 &&
+              !((finL.take t).all (· == 'D') && ((finL.drop (t + np)).take nc).all (· == 'D') &&
+                finL.getD (t + np + nc + 1) 'D' == 'D' && closed && wait) then
+        some "shutdown_clean: queue closed but a worker, a collector or Wait did not finish"
+      else if c.wantClose && producersDone && nc > 0 && !stopUsed && (c.ops.filter Op.isPan).length < c.threads && !subMultiset want res then
         -- fewer panicking operations than workers: a worker survives and drains the queue
         some "each_op_one_result: an operation without a result"
       else none
     | _, _, _ => some "unparsable-observation"
 
+def parseProds (s : String) : Option (List (List Op)) := (s.splitOn ";").mapM parseOps
+
+def runPF (t oc ic : Nat) (prods : List (List Op)) (nc : Nat) (cl : Bool) (sc : String) (tag : String)
+    (obs : String) : Verdict :=
+  let np := prods.length
+  match parseProcSched t np nc sc with
+  | none => bad (tag ++ "-sched")
+  | some sched =>
+    let c : Cfg := { threads := t, outCap := oc, inCap := ic, prods := prods, ncoll := nc, wantClose := cl, fixed := true }
+    let stopUsed := sched.contains (t + np + nc)
+    let m := runMacro (procMacro c) sched (procDrainOrder t np nc)
+    let mo := procObs c m
+    let tags := [tag, s!"threads{t}", s!"ops{c.ops.length}", "nt"] ++
+      (if np != 1 then [s!"producers{np}"] else []) ++ (if nc != 1 then [s!"collectors{nc}"] else []) ++
+      (if m.amb then ["ambiguous"] else []) ++ (if stopUsed then ["stop"] else []) ++
+      (if c.ops.any Op.isPan then ["panic-op"] else []) ++ (if oc == 0 then ["unbuffered"] else [])
+    match procSpec c stopUsed obs with
+    | some why => fail why tags
+    | none => if mo == obs || m.amb then ok tags else diff mo tags
+
 def handlePF (inp : List String) (obs : String) : Verdict :=
   match inp with
   | [_, t, oc, ic, ops, cl, sc] =>
     match parseNat t, parseNat oc, parseNat ic, parseOps ops, parseBool cl with
-    | some t, some oc, some ic, some ops, some cl =>
-      match parseProcSched t sc with
-      | none => bad "pf-sched"
-      | some sched =>
-        let c : Cfg := { threads := t, outCap := oc, inCap := ic, ops := ops, wantClose := cl, fixed := true }
-        let stopUsed := sched.contains (t + 2)
-        let m := runMacro (procMacro c) sched (procDrainOrder t)
-        let mo := procObs c m
-        let tags := ["pf", s!"threads{t}", s!"ops{ops.length}", "nt"] ++
-          (if m.amb then ["ambiguous"] else []) ++ (if stopUsed then ["stop"] else []) ++
-          (if ops.any Op.isPan then ["panic-op"] else []) ++ (if oc == 0 then ["unbuffered"] else [])
-        match procSpec c stopUsed obs with
-        | some why => fail why tags
-        | none => if mo == obs || m.amb then ok tags else diff mo tags
+    | some t, some oc, some ic, some ops, some cl => runPF t oc ic [ops] 1 cl sc "pf" obs
     | _, _, _, _, _ => bad "pf"
   | _ => bad "pf"
+
+/-- `pg <threads> <outcap> <incap> <ops of producer 0>;<ops of producer 1>;… <collectors> <close> <sched>` -/
+def handlePG (inp : List String) (obs : String) : Verdict :=
+  match inp with
+  | [_, t, oc, ic, prods, nc, cl, sc] =>
+    match parseNat t, parseNat oc, parseNat ic, parseProds prods, parseNat nc, parseBool cl with
+    | some t, some oc, some ic, some prods, some nc, some cl => runPF t oc ic prods nc cl sc "pg" obs
+    | _, _, _, _, _, _ => bad "pg"
+  | _ => bad "pg"
 
 def handlePU (inp : List String) (obs : String) : Verdict :=
   match inp with
@@ -258,7 +298,7 @@ def handlePU (inp : List String) (obs : String) : Verdict :=
     match parseNat t, parseNat gmp, parseNat oc, parseNat ic, parseOps ops with
     | some t, some gmp, some oc, some ic, some ops =>
       let threads := if t > gmp || t < 1 then gmp else t
-      let c : Cfg := { threads := threads, outCap := oc, inCap := max ic 1, ops := ops, wantClose := true, fixed := true }
+      let c : Cfg := Cfg.single threads oc (max ic 1) ops true true
       let anyPan := ops.any Op.isPan
       let rel := if ops.length == 0 then "ops0" else if ops.length < threads then "ops<w"
                  else if ops.length == threads then "ops=w" else "ops>w"
@@ -276,8 +316,8 @@ def handlePU (inp : List String) (obs : String) : Verdict :=
           else if !(closed && wait) then fail "shutdown_clean" tags
           else
             -- model: the lowest-first schedule of the model (any schedule gives this multiset)
-            let m := runMacro (procMacro c) [] (procDrainOrder threads)
-            let mo := s!"res={showRess (sortRes m.st.delivered)} closed={showBool (m.st.cpc == .closedSeen)} wait={showBool m.st.waitReturned}"
+            let m := runMacro (procMacro c) [] (procDrainOrder threads 1 1)
+            let mo := s!"res={showRess (sortRes (allDelivered m.st))} closed={showBool (allSeen m.st)} wait={showBool m.st.waitReturned}"
             if (ops.filter Op.isPan).length ≥ threads || mo == obs then ok tags else diff mo tags
         | _, _, _ => fail "unparsable-observation" tags
     | _, _, _, _, _ => bad "pu"
@@ -523,7 +563,7 @@ def handlePP (inp : List String) (obs : String) : Verdict :=
 
 end promise
 
-def ops : List String := ["pf", "pu", "mp", "pp"]
+def ops : List String := ["pf", "pg", "pu", "mp", "pp"]
 
 def handle (line : String) : String :=
   let (inp, obs) := splitCase line
@@ -531,6 +571,7 @@ def handle (line : String) : String :=
   if obs == "skip" then ({ status := "skip" } : Verdict).render else
   (match ts.head? with
    | some "pf" => handlePF ts obs
+   | some "pg" => handlePG ts obs
    | some "pu" => handlePU ts obs
    | some "mp" => handleMP ts obs
    | some "pp" => handlePP ts obs
